@@ -37,6 +37,9 @@ CHECKS = {
  "C12": dict(cat="model_checking", tech="reference-model conformance: every health-result sequence up to a length bound executed on the real election in virtual time and compared tick by tick with a reference counter", ref="DESIGN §5 C12",
    note="Sequences over {ok,bad,slow} of length <=6 (quick) / <=7 (thorough) x thresholds {0,1,2,3,4}; one instance; K1 timing; store fault-free; a slow check returns false at its deadline.",
    text="The reference model (consecutive-unhealthy counter of the current term) and the implementation agree on every tick of every sequence: demotion by the health mechanism exactly when the count reaches the threshold, never earlier, OnDemote ran, each Check context expires within 100ms, the instance continues as follower and is re-elected; counts restart on healthy results and on new terms (runs continue over up to three terms)."),
+ "C03": dict(cat="fault_enumeration", tech="exhaustive enumeration of fault position x fault kind x timing configuration, each combined with deviation-bounded exploration of latencies/placement on the real code in virtual time; exact virtual-time oracle", ref="DESIGN §5 C03",
+   note="Fault begins at heartbeat attempt 1..5; nine fault kinds; K1,K2,K3 (K3 exercises the H/2 time-out); d<=1 quick (K3: default schedule), d<=2 thorough; single leader; the reference store returns the real NATS error values so the string classification is exercised as in production.",
+   text="For record replaced/deleted/expired: the instance has stopped claiming and OnDemote has run by the completion (answer or time-out) of the first refresh the store evaluates after the change, and within H+2T; for unreachable-store kinds (three NATS error values, hang, lost acknowledgements, partition): by the completion of the third consecutive failed attempt and within 3H+3T of the start of the last successful refresh. Times are exact virtual times."),
 }
 NA_DEFAULT = "check not built yet in this round (planned in DESIGN.md §9a); not claimed until it runs alarm-free"
 
